@@ -42,13 +42,13 @@ def strategy(draw, tier):
     mode = draw(st.sampled_from(['none', 'dict', 'list', 'list']))
     center = draw(st.sampled_from(['peak', 'trough']))
     if mode == 'dict':
-        opts = draw(gc.st_options(band))
+        opts = draw(gc.st_options(band, sparse=True))
     elif mode == 'list':
         if axis == [0, 1]:
-            opts = [[draw(gc.st_options(band)) for _ in range(n1)] for _ in range(n0)]
+            opts = [[draw(gc.st_options(band, sparse=True)) for _ in range(n1)] for _ in range(n0)]
         else:
             k = n0 if axis == 0 else n1
-            opts = [draw(gc.st_options(band)) for _ in range(k)]
+            opts = [draw(gc.st_options(band, sparse=True)) for _ in range(k)]
     else:
         opts = None
     return {'fs': band['fs'], 'f_range': band['f_range'], 'sigs': sigs, 'axis': axis, 'mode': mode, 'opts': opts,
@@ -109,7 +109,8 @@ def check(case, rec):
     delays = case.get('delays') or []
     gc.install_delays([(u, (delays[k % len(delays)] if delays else 0) / 1000.0) for k, u in enumerate(units)])
     try:
-        out, models = run_group(case, X, fs, fr, axis, arg, rs, via, opts, n0, n1)
+        with gc.start_method(case.get('start_method')):
+            out, models = run_group(case, X, fs, fr, axis, arg, rs, via, opts, n0, n1)
     finally:
         gc.remove_delays()
     return finish_check(case, rec, X, out, models, refs, axis, mode, via, opt_for, n0, n1)
@@ -190,5 +191,16 @@ def finish_check(case, rec, X, out, models, refs, axis, mode, via, opt_for, n0, 
     rec.nontrivial((n0 != n1 or (n0 >= 2 and n1 >= 2)) and (distinct or case.get('duplicate')) and (differing or nj >= 2))
 
 
+@st.composite
+def strategy_spawn(draw, tier):
+    """the same cases with the caller's start method set to spawn / forkserver (workers do not inherit the parent's memory)"""
+    case = draw(strategy(tier))
+    case.update(delays=[], refit=False, other_object=False, edit_options=False, n_jobs=draw(st.sampled_from([1, 2, 3])),
+                start_method=draw(st.sampled_from(['spawn', 'spawn', 'forkserver'])))
+    return case
+
+
 PARTS = [Part('group-3d', check, strategy=strategy, budget={'quick': 320, 'thorough': 6000}, shards={'quick': 16, 'thorough': 16},
-              time_cap={'quick': 200, 'thorough': 3000})]
+              time_cap={'quick': 200, 'thorough': 3000}),
+         Part('spawned-workers', check, strategy=strategy_spawn, budget={'quick': 24, 'thorough': 400}, shards={'quick': 8, 'thorough': 16},
+              time_cap={'quick': 200, 'thorough': 2400})]
